@@ -97,7 +97,9 @@ id_verif_check(nni_id_map *m, const char *where)
 		}
 		return;
 	}
-	if ((m->id_cap > 64) && ((++tick & 63) != 0)) {
+	// (one counter for all maps, which have different owners' locks)
+	if ((m->id_cap > 64) &&
+	    ((__atomic_add_fetch(&tick, 1, __ATOMIC_RELAXED) & 63) != 0)) {
 		return;
 	}
 	if ((m->id_cap & (m->id_cap - 1)) != 0) {
